@@ -102,6 +102,7 @@ type checkCtx struct {
 	undecidedOK map[string]string // frontier: obligation name -> reason (sweeps only)
 	provedLedger map[string]bool
 	useLedger bool
+	strictNew bool // an undischarged obligation that is in neither ledger is a violation (frame sweep)
 	frontierLedger map[string]bool // obligations known to be undecided on the unchanged tree
 	generated map[string]bool
 }
@@ -258,7 +259,7 @@ func runCheck(repo, prop, tier string, rest []string) int {
 			// a sweep obligation that is not in the ledger of proved obligations: it is a violation only when it
 			// replaces a proved obligation of the same function and kind that is no longer generated (edited code);
 			// otherwise it is undecided and not claimed
-			if c.frontierLedger[o.Name] || !c.replacesProved(o) {
+			if c.frontierLedger[o.Name] || (!c.strictNew && !c.replacesProved(o)) {
 				undecided = append(undecided, o.Name)
 				total--
 				continue
